@@ -79,6 +79,9 @@ def gen(rng, tier):
         times = sorted(rng.uniform(0, 0.08) for _ in range(n))
         if rng.random() < 0.5:
             times[0] = 0.0
+        if n >= 2 and rng.random() < 0.35:       # two entries at the same instant: the later one holds
+            j = rng.randrange(1, n)
+            times[j] = times[j - 1]
         cases.append({"kind": "loop", "tau": tau, "r": rng.choice([1.0, 2.0, 0.5]), "v_leak": v_leak,
                       "thr": v_leak + rng.choice([0.5, 1.0]), "times": times,
                       "amps": [rng.choice([0.0, 0.3, 0.8, 1.05, 1.5, 2.5]) for _ in range(n)],
@@ -158,6 +161,35 @@ def _neuron(L, p, v):
     return n
 
 
+def reference_spikes(p, times, amps, duration):
+    """independent event-driven integration of tau dv/dt = (v_leak - v) + R I(t) with reset by subtraction, where
+    I(t) is the amplitude of the LAST schedule entry with time <= t (0 before the first entry)"""
+    bps = sorted(set([0.0, duration] + [t for t in times if 0.0 <= t <= duration]))
+    v, spikes = 0.0, []
+    for a, b in zip(bps, bps[1:]):
+        cur = 0.0
+        for t, amp in zip(times, amps):
+            if t <= a:
+                cur = amp
+        vinf = p["v_leak"] + p["r"] * cur
+        t0 = a
+        while True:
+            if vinf > p["thr"] and v < p["thr"]:
+                tc = t0 + p["tau"] * math.log((vinf - v) / (vinf - p["thr"]))
+            else:
+                tc = math.inf
+            if tc <= b:
+                spikes.append(tc)
+                v = p["thr"] - p["thr"]           # at the crossing v == thr; reset by subtraction
+                t0 = tc
+                if len(spikes) > 100000:
+                    break
+            else:
+                v = vinf + (v - vinf) * math.exp(-(b - t0) / p["tau"])
+                break
+    return spikes
+
+
 def run_loop(c):
     L = load_lif()
     p = {k: c[k] for k in ("tau", "r", "v_leak", "thr")}
@@ -172,6 +204,12 @@ def run_loop(c):
     if len(sa) != len(sb) or any(abs(x - y) > 1e-9 + 1e-7 * abs(x) for x, y in zip(sa, sb)):
         fail = (f"spike times depend on the recording interval: record_dt={c['dt']} -> {sa[:6]}..., "
                 f"record_dt={c['dt'] / c['k']} -> {sb[:6]}... ({p}, schedule {c['times']} {c['amps']})")
+    if not fail:
+        ref = [t for t in reference_spikes(p, c["times"], c["amps"], c["duration"]) if t < c["duration"] * (1 - 1e-9)]
+        sa2 = [t for t in sa if t < c["duration"] * (1 - 1e-9)]
+        if len(ref) != len(sa2) or any(abs(x - y) > 1e-9 + 1e-6 * abs(y) for x, y in zip(sa2, ref)):
+            fail = (f"spike times differ from an independent integration of the LIF equation: simulator {sa2[:5]}... "
+                    f"({len(sa2)} spikes), reference {ref[:5]}... ({len(ref)} spikes) ({p}, schedule {c['times']} {c['amps']})")
     if not fail:
         vb = {round(t / (c["dt"] / c["k"])): v for t, v in zip(b.times, b.voltages)}
         for t, v in zip(a.times, a.voltages):
